@@ -27,3 +27,81 @@ Example C01_example :
                           (0%nat, CSend KU 2%nat); (3%nat, CNone); (3%nat, CNone); (3%nat, CNone)] = Some (st, es)
                /\ in_handlers st = 1.
 Proof. eexists. eexists. split; [vm_compute; reflexivity | vm_compute; reflexivity]. Qed.
+
+(* ------------------------------------------------------------------------------------------------
+   Actor level ("turns"): every piece of user code of an actor — receive handler for user messages,
+   for lifecycle / system messages, timer callbacks, locally executed functions — runs as a turn of its
+   mailbox. MV.C01.TurnsModel.turns_ok is a checker for traces of Begin/End events recorded (by a
+   sequentially consistent recorder) on the real vivid.ActorSystem by harness/cmd/c01turns; it is run
+   under vm_compute on every recorded trace. The theorems below are its soundness — for EVERY trace,
+   no assumption on how it was produced —, its completeness, and rejected witnesses. *)
+From MV Require Import C01.TurnsModel C01.TurnsProofs.
+
+(* An accepted trace has no two overlapping invocations of one actor: for invocations with Begin / End
+   at positions b1 < e1 and b2 < e2 of the recorder's order, e1 < b2 or e2 < b1. *)
+Theorem C01_turns_no_overlap : forall tr, turns_ok tr = true ->
+  forall a b1 e1 b2 e2, tinvocation tr a b1 e1 -> tinvocation tr a b2 e2 -> b1 <> b2 ->
+  (e1 < b2)%nat \/ (e2 < b1)%nat.
+Proof. exact turns_no_overlap. Qed.
+Print Assumptions C01_turns_no_overlap.
+
+(* Begin and End events pair up one to one, and between the two events of an invocation the trace has
+   no event of that actor at all. *)
+Theorem C01_turns_bracketed : forall tr, turns_ok tr = true ->
+  forall a b e, tinvocation tr a b e ->
+  (forall e', tinvocation tr a b e' -> e' = e) /\ (forall b', tinvocation tr a b' e -> b' = b) /\
+  (forall p x, (b < p)%nat -> (p < e)%nat -> nth_error tr p = Some x -> tactor x <> a).
+Proof.
+  intros tr H a b e Hi. split; [|split].
+  - intros e' Hi'. exact (turns_end_unique tr H a b e' e Hi' Hi).
+  - intros b' Hi'. exact (turns_begin_unique tr H a b' b e Hi' Hi).
+  - exact (turns_between tr H a b e Hi).
+Qed.
+Print Assumptions C01_turns_bracketed.
+
+(* Visibility: an invocation read from the actor's plain variable exactly what the latest earlier End
+   of the same actor wrote; the first invocation read the initial value. *)
+Theorem C01_turns_reads_last_write : forall tr, turns_ok tr = true ->
+  forall a e k' i' w b k i v,
+  nth_error tr e = Some (TEnd a k' i' w) -> nth_error tr b = Some (TBegin a k i v) ->
+  (e < b)%nat -> no_end_of tr a (S e) b -> v = w.
+Proof. exact turns_reads_last_write. Qed.
+Print Assumptions C01_turns_reads_last_write.
+
+Theorem C01_turns_first_reads_init : forall tr, turns_ok tr = true ->
+  forall a b k i v, nth_error tr b = Some (TBegin a k i v) -> no_end_of tr a 0 b -> v = 0.
+Proof. exact turns_first_reads_init. Qed.
+Print Assumptions C01_turns_first_reads_init.
+
+(* For the trace of a script that ran to the end (system shut down): every invocation that began ended. *)
+Theorem C01_turns_closed_all_ended : forall tr, turns_ok_closed tr = true ->
+  turns_ok tr = true /\
+  forall a b k i v, nth_error tr b = Some (TBegin a k i v) -> exists e, tinvocation tr a b e.
+Proof. exact turns_closed_all_ended. Qed.
+Print Assumptions C01_turns_closed_all_ended.
+
+(* Completeness (the checker does not reject correct behaviour): if the events of every actor, in trace
+   order, are a sequential history — complete invocations one after the other with growing ids, each
+   reading what the previous one wrote, possibly one still open — the trace is accepted, however the
+   actors interleave; and only such traces are accepted. *)
+Theorem C01_turns_complete : forall tr,
+  (forall a, seq_hist a (-1) 0 (tproj a tr)) -> turns_ok tr = true.
+Proof. exact turns_complete. Qed.
+Print Assumptions C01_turns_complete.
+
+Theorem C01_turns_exact : forall tr,
+  turns_ok tr = true <-> (forall a, seq_hist a (-1) 0 (tproj a tr)).
+Proof. exact turns_exact. Qed.
+Print Assumptions C01_turns_exact.
+
+(* Rejected: a local function that begins inside an open user-message invocation of the same actor
+   (what "ExecLocalFunc on the actor's own reference runs the function on the spot" produces), a timer
+   callback run from the timer goroutine inside a handler, and a stale read without overlap. *)
+Theorem C01_turns_rejects_seeded_behaviours :
+  turns_ok [TBegin 1 TUser 0 0; TBegin 1 TLocal 1 0; TEnd 1 TLocal 1 1; TEnd 1 TUser 0 1] = false /\
+  turns_ok tr_inline_timer = false /\ turns_ok tr_stale = false /\ turns_ok_closed tr_good = true.
+Proof.
+  split; [exact (proj1 inline_local_rejected)|].
+  split; [exact (proj1 inline_timer_rejected)|]. split; [exact (proj1 stale_rejected) | exact good_accepted].
+Qed.
+Print Assumptions C01_turns_rejects_seeded_behaviours.
